@@ -8,6 +8,7 @@ import itertools
 from ..poly import Sym, mk_func
 from ..interp import Interp, Str, Tup, Opaque
 from ..model import AnalysisError
+from .. import purity
 from . import motion
 from .motion import V, TWO31
 from .c01 import clear_expected, NoInline
@@ -38,6 +39,7 @@ def run(ck, prog, tier):
     ck.assumptions += ['inputs are integers', 'mpmath rounds correctly to the configured precision',
                        'duration minimality / root selection is outside this check']
     ck.trusted += ['python ast module', 'vf.poly normal forms', 'vf.interp']
+    purity.check(ck, prog, ['ebb_calc.calculate_lm', 'ebb_motion.moveTimeLM'], 'C03-R-pure')
     fn = prog.func('ebb_calc.calculate_lm')
     if fn.params != ['steps', 'rate', 'accel', 'accum']:
         raise AnalysisError('calculate_lm signature changed: %s' % fn.params)
